@@ -6,8 +6,14 @@ use crate::wal::paths::WalPathManager;
 use crate::wal::storage::{SharedMmapKeeper, set_fsync_schedule};
 use std::collections::{HashMap, HashSet};
 use std::fs;
+#[cfg(not(walrus_verif))]
 use std::sync::mpsc;
+#[cfg(walrus_verif)]
+use crate::wal::verif::sync::mpsc;
+#[cfg(not(walrus_verif))]
 use std::sync::{Arc, RwLock};
+#[cfg(walrus_verif)]
+use crate::wal::verif::sync::{Arc, RwLock};
 
 use super::WalIndex;
 use super::allocator::{BlockAllocator, BlockStateTracker, FileStateTracker, flush_check};
